@@ -114,9 +114,37 @@ Definition py_int (base maxd : Z) (s0 : list ascii) : outcome Z :=
            end
   end.
 
+(* 10 ^ n by repeated squaring (Z.pow iterates n multiplications; n = 4300 here) *)
+Fixpoint fast_pow (b : Z) (e : positive) : Z :=
+  match e with
+  | xH => b
+  | xO p => let h := fast_pow b p in h * h
+  | xI p => let h := fast_pow b p in b * (h * h)
+  end.
+
+Definition pow10 (n : Z) : Z :=
+  match n with
+  | Z0 => 1
+  | Zpos p => fast_pow 10 p
+  | Zneg _ => 0
+  end.
+
+Lemma fast_pow_spec b p : fast_pow b p = b ^ Zpos p.
+Proof.
+  induction p as [p IH|p IH|]; cbn [fast_pow].
+  - rewrite IH. rewrite Pos2Z.inj_xI. rewrite Z.pow_add_r by lia. rewrite Z.pow_mul_r by lia.
+    rewrite Z.pow_1_r. rewrite Z.pow_2_r. rewrite <- Z.pow_mul_l. rewrite Z.pow_mul_l. lia.
+  - rewrite IH. rewrite Pos2Z.inj_xO. rewrite Z.pow_mul_r by lia. rewrite Z.pow_2_r.
+    rewrite <- Z.pow_mul_l. rewrite Z.pow_mul_l. reflexivity.
+  - rewrite Z.pow_1_r. reflexivity.
+Qed.
+
+Lemma pow10_spec n : 0 <= n -> pow10 n = 10 ^ n.
+Proof. destruct n; [reflexivity|intros _; apply fast_pow_spec|lia]. Qed.
+
 (* str(z) / "{0}".format(z): ValueError when z has more than maxd decimal digits *)
 Definition py_str_int (maxd : Z) (z : Z) : outcome unit :=
-  if Z.abs z <? 10 ^ maxd then Ok tt else Crash ValueError.
+  if Z.abs z <? pow10 maxd then Ok tt else Crash ValueError.
 
 (* try: x = int(..) except ValueError: raise <ParserError subclass k> *)
 Definition py_catch_value_error {A} (x : outcome A) (k : string) : outcome A :=
